@@ -225,7 +225,29 @@ def build(repo, findings):
         if has_loop:
           rl.before_loop('remove_line_continuations', 0, 'proof { assert(result@ =~= Seq::<char>::empty()); assert(s@.skip(0) =~= s@); assert(Seq::<char>::empty() + remove_cont(s@) =~= remove_cont(s@)); }')
         u.add(rl)
-        ex.require_text(r'let body = remove_line_continuations\(word_str\.as_ref\(\)\);\s*expander\.basic_expand_to_str\(body\.as_str\(\)\)', 'basic_expand_heredoc_word expands the body after removing line continuations')
+        # basic_expand_heredoc_word, whole function: continuations are removed from the body as written, then it is expanded, and what the
+        # expansion returns is handed back untouched (content that comes out of an expansion is never re-read as syntax)
+        hw = ex.item(r'^pub\(crate\) async fn basic_expand_heredoc_word\(', 'basic_expand_heredoc_word').r1().r3()
+        hw.resub(r'shell: &mut Shell<impl extensions::ShellExtensions>', 'shell: &mut Shell', 'R4', 'extension generic erased', count=1)
+        hw.resub(r'word_str: impl AsRef<str>', 'word_str: &str', 'R4', '`impl AsRef<str>` parameter -> &str (its only use is `.as_ref()`)', count=1)
+        hw.resub(r'\bword_str\.as_ref\(\)', 'word_str', 'R4', '`impl AsRef<str>` parameter -> &str', count=None)
+        hw.resub(r'\bfn basic_expand_heredoc_word\(', 'fn basic_expand_heredoc_word_real(', 'R5', 'renamed: the stub of the same name stays the contract its callers see', count=1)
+        hw.resub(r'WordExpander::new\(shell, params\)', 'HeredocExpander::new(shell, params)', 'R14', 'WordExpander (generic over the extension type, borrows the shell) -> stub with the two mode flags', count=1)
+        hw.sig('basic_expand_heredoc_word_real', ret='res', ensures=[
+            C('C10,C04 the-body-is-expanded-after-its-line-continuations-are-removed-and-the-result-is-handed-back-untouched',
+              'res == heredoc_expand_spec(*old(shell), remove_cont(word_str@), true, true)')])
+        u.raw('''// the expander as far as this function uses it: two mode flags and the expansion itself (uninterpreted)
+pub uninterp spec fn heredoc_expand_spec(sh: Shell, body: Seq<char>, heredoc_mode: bool, no_brace: bool) -> Result<String, error::Error>;
+pub struct HeredocExpander { pub heredoc_mode: bool, pub disable_brace_expansion: bool, pub sh: Ghost<Shell> }
+impl HeredocExpander {
+    #[verifier::external_body]
+    pub fn new(shell: &mut Shell, params: &ExecutionParameters) -> (r: Self) ensures !r.heredoc_mode && !r.disable_brace_expansion && r.sh@ == *old(shell) { unimplemented!() }
+    #[verifier::external_body]
+    pub fn basic_expand_to_str(&mut self, word: &str) -> (r: Result<String, error::Error>)
+        ensures r == heredoc_expand_spec(old(self).sh@, word@, old(self).heredoc_mode, old(self).disable_brace_expansion) { unimplemented!() }
+}
+''')
+        u.add(hw)
     else:
         u.raw('''pub proof fn heredoc_line_continuations_are_removed()
     ensures
